@@ -10,19 +10,22 @@ Section Spec.
 
   (* The stream proves knowledge of a registration on this phantom to one of the transports:
      min     its first 32 bytes are a registered identifier;
-     prefix  the 64-byte window at the offset of some table row is revealed (under a station key)
-             to a registered identifier - whatever the static bytes, transport type or prefix id;
+     prefix  the stream starts with the static bytes of some table row and the 64-byte window at
+             that row's offset is revealed (under a station key) to a registered identifier -
+             whatever that registration's transport type or prefix id;
      obfs4   the mark of a registered obfs4 identifier sits at the tail of some prefix of the stream. *)
   Definition presents_tag (tbl : list pfx) (R : registry) (s : bytes) : Prop :=
     (min_tag_len <= length s /\ lookup (firstn min_tag_len s) R <> None) \/
-    (exists p, In p tbl /\ p_off p + tag_len <= length s /\ first_reg (reveal (window p s)) R <> None) \/
+    (exists p, In p tbl /\ p_off p + tag_len <= length s /\ static_matches p s = true /\
+               first_reg (reveal (window p s)) R <> None) \/
     (exists k, k <= length s /\ obfs4_hit mark R (firstn 32 s) (firstn k s) <> None).
 
   Definition is_some {A} (o : option A) : bool := match o with Some _ => true | None => false end.
 
   Definition presents_tagb (tbl : list pfx) (R : registry) (s : bytes) : bool :=
     ((min_tag_len <=? length s) && is_some (lookup (firstn min_tag_len s) R)) ||
-    existsb (fun p => (p_off p + tag_len <=? length s) && is_some (first_reg (reveal (window p s)) R)) tbl ||
+    existsb (fun p => (p_off p + tag_len <=? length s) && static_matches p s &&
+                      is_some (first_reg (reveal (window p s)) R)) tbl ||
     (if existsb obfs4_candidate R
      then existsb (fun k => is_some (obfs4_hit mark R (firstn 32 s) (firstn k s))) (seq 0 (S (length s)))
      else false).
